@@ -4,6 +4,7 @@ import (
 	"errors"
 	"fmt"
 	"io"
+	"strings"
 	"math/rand"
 	"runtime"
 	"sync"
@@ -89,8 +90,9 @@ func (f *faultSrcFile) ReadDir(n int) ([]hackpadfs.DirEntry, error) {
 
 // faultStore: the cache store (Open+OpenFile+Mkdir, optionally everything mem.FS has).
 type faultStore struct {
-	inner *mem.FS
-	plan  *faultPlan
+	inner     *mem.FS
+	plan      *faultPlan
+	writeBack bool
 }
 
 func (s *faultStore) Open(name string) (hackpadfs.File, error) { return s.inner.Open(name) }
@@ -117,7 +119,7 @@ func (s *faultStore) OpenFile(name string, flag int, perm hackpadfs.FileMode) (h
 		s.plan.maxWriters = s.plan.writers[name]
 	}
 	s.plan.mu.Unlock()
-	return &faultStoreFile{f: f, plan: s.plan, name: name}, nil
+	return &faultStoreFile{f: f, plan: s.plan, name: name, writeBack: s.writeBack}, nil
 }
 
 // fullFaultStore additionally exposes what mem.FS has natively (MkdirAll, Remove, Rename, Stat, Chmod ...).
@@ -140,6 +142,10 @@ type faultStoreFile struct {
 	plan   *faultPlan
 	name   string
 	closed bool
+	// write-back mode: writes are buffered and only reach the store when the file is closed;
+	// a failing Close flushes only the first half of what was written (as a remote or buffered store may)
+	writeBack bool
+	pending   [][]byte
 }
 
 func (f *faultStoreFile) Read(p []byte) (int, error)        { return f.f.Read(p) }
@@ -149,6 +155,10 @@ func (f *faultStoreFile) Write(p []byte) (int, error) {
 	if err := f.plan.call("store.Write"); err != nil {
 		return 0, err
 	}
+	if f.writeBack {
+		f.pending = append(f.pending, append([]byte(nil), p...))
+		return len(p), nil
+	}
 	return hackpadfs.WriteFile(f.f, p)
 }
 func (f *faultStoreFile) Close() error {
@@ -157,7 +167,15 @@ func (f *faultStoreFile) Close() error {
 		f.plan.mu.Lock()
 		f.plan.writers[f.name]--
 		f.plan.mu.Unlock()
-		if err := f.plan.call("store.Close"); err != nil {
+		err := f.plan.call("store.Close")
+		flush := f.pending
+		if err != nil {
+			flush = flush[:len(flush)/2]
+		}
+		for _, chunk := range flush {
+			_, _ = hackpadfs.WriteFile(f.f, chunk)
+		}
+		if err != nil {
 			_ = f.f.Close()
 			return err
 		}
@@ -177,7 +195,7 @@ type c11case struct {
 func c11cases(env *core.Env) []c11case {
 	var cs []c11case
 	for _, size := range c11sizes {
-		for _, store := range []string{"minimal", "full"} {
+		for _, store := range []string{"minimal", "full", "minimal-writeback", "full-writeback"} {
 			cs = append(cs, c11case{Part: "fault", Size: size, Store: store})
 		}
 	}
@@ -194,7 +212,7 @@ func init() {
 	core.Register(&core.Prop{
 		ID:    "C11",
 		Level: "fault_enumeration",
-		Rule: "fault enumeration of one cache fill: for files of 1, 511, 512, 513, 1500, 5000 bytes and two cache stores (only Open+OpenFile+Mkdir; everything mem.FS has) the calls of a clean first Open are counted (source Read, store OpenFile, each store Write, store Close) and the Open is repeated on a fresh cache once per index with that call failing: the Open must report an error, and three later fault-free Opens must each either fail or deliver exactly the source bytes; the cache store's own copy is inspected as well. " +
+		Rule: "fault enumeration of one cache fill: for files of 1, 511, 512, 513, 1500, 5000 bytes and four cache stores (only Open+OpenFile+Mkdir / everything mem.FS has, each also as a write-back store whose failing Close keeps only half of the written data) the calls of a clean first Open are counted (source Read, store OpenFile, each store Write, store Close) and the Open is repeated on a fresh cache once per index with that call failing: the Open must report an error, and three later fault-free Opens must each either fail or deliver exactly the source bytes; the cache store's own copy is inspected as well. " +
 			"Concurrency (race detector on): 2..4 goroutines open one uncached name while a gate in the source's Read pauses the copy at a chosen chunk boundary until the others are inside Open (gated), or run freely (free); every successful Open is read to the end and compared with the source, and the number of simultaneously open write handles per name in the cache store (copies in progress) must never exceed 1. Non-trivial: fault runs in which the fault fired / concurrent groups with >=2 successful opens; distinct by case parameters and fault index",
 		Assumptions: []string{"a single fault per fill", "the source is immutable"},
 		NumCases:    func(env *core.Env) int { return len(c11cases(env)) },
@@ -235,9 +253,9 @@ func newC11World(storeKind string, files map[string][]byte) (*c11world, error) {
 		}
 	}
 	w.store, _ = mem.NewFS()
-	base := faultStore{inner: w.store, plan: w.plan}
+	base := faultStore{inner: w.store, plan: w.plan, writeBack: strings.HasSuffix(storeKind, "-writeback")}
 	var err error
-	if storeKind == "full" {
+	if strings.HasPrefix(storeKind, "full") {
 		w.cache, err = cache.NewReadOnlyFS(&faultSource{w.src, w.plan}, &fullFaultStore{base}, cache.ReadOnlyOptions{})
 	} else {
 		w.cache, err = cache.NewReadOnlyFS(&faultSource{w.src, w.plan}, &base, cache.ReadOnlyOptions{})
